@@ -300,6 +300,7 @@ class Ctx:
         results = [None] * len(cases)
         start = 0
         crashes = 0
+        timeouts = 0
         while start < len(cases):
             lines = [l for c in cases[start:] for l in c]
             try:
@@ -308,6 +309,10 @@ class Ctx:
                 rc, out, err = p.returncode, p.stdout, p.stderr
             except subprocess.TimeoutExpired as e:
                 rc, out, err = -999, (e.stdout or b"").decode(errors="replace") if isinstance(e.stdout, bytes) else (e.stdout or ""), "TIMEOUT"
+                # a run that does not end (a loop that never terminates in the code under test) must not cost hours:
+                # the limit is there for the whole chunk; after it has struck once the rest gets a short one
+                timeouts += 1
+                timeout = min(timeout, 30)
             outl = out.split("\n")
             if outl and outl[-1] == "":
                 outl.pop()
@@ -327,7 +332,7 @@ class Ctx:
             results[i] = ("crash", outl[k:], err[-4000:], rc)
             crashes += 1
             start = i + 1
-            if crashes > 25:
+            if crashes > 25 or timeouts >= 3:
                 for j in range(start, len(cases)):
                     results[j] = ("skipped", [], "too many crashes", 0)
                 break
